@@ -453,7 +453,8 @@ class Continuum:
         for tier_name in eaf.get_tier_names():
             if selected_tiers is not None and tier_name not in selected_tiers:
                 continue
-            for start, end, value in eaf.get_annotation_data_for_tier(tier_name):
+            # reference tiers yield a fourth field (the value of the annotation they refer to)
+            for start, end, value, *_ in eaf.get_annotation_data_for_tier(tier_name):
                 if use_tier_as_annotation:
                     self.add(annotator, Segment(start, end), tier_name)
                 else:
